@@ -176,7 +176,7 @@ func (r *reader) apiStep(it int) {
 		if len(r.apiBest) < 400 {
 			r.apiBest = append(r.apiBest, apiObs{s: s, e: e, what: "block", block: jb.ID})
 		}
-		r.keep(group{s: s, e: e, b: jb.ID, phase: r.rc.phase.Load()}, false)
+		r.keep(group{s: s, e: e, b: jb.ID, phase: r.rc.getPhase()}, false)
 	case 1, 6: // account at best: balance, energy, code flag
 		ai := r.rng.Intn(len(w.accts))
 		url := fmt.Sprintf("/accounts/%s", w.accts[ai])
